@@ -2,6 +2,21 @@ module verif/realnats
 
 go 1.23
 
-require github.com/simpleiot/simpleiot v0.0.0
+require (
+	github.com/nats-io/nats-server/v2 v2.10.4
+	github.com/nats-io/nats.go v1.31.0
+	github.com/simpleiot/simpleiot v0.0.0
+)
+
+require (
+	github.com/klauspost/compress v1.17.2 // indirect
+	github.com/minio/highwayhash v1.0.2 // indirect
+	github.com/nats-io/jwt/v2 v2.5.2 // indirect
+	github.com/nats-io/nkeys v0.4.6 // indirect
+	github.com/nats-io/nuid v1.0.1 // indirect
+	golang.org/x/crypto v0.14.0 // indirect
+	golang.org/x/sys v0.13.0 // indirect
+	golang.org/x/time v0.3.0 // indirect
+)
 
 replace github.com/simpleiot/simpleiot => /repo
